@@ -37,6 +37,8 @@ def addr(rnd, tab, write=False):
         n = len(tab[str(fno)]["words"]) // EW[ty]
         e = rnd.choice([0, 1, n - 1, rnd.randint(0, n - 1), min(n - 1, 254), min(n - 1, 255)])
         cnt = rnd.choice([1, 1, 2, min(5, n - e), min(10, n - e)]) if rnd.random() < 0.5 else 1
+        if rnd.random() < 0.12:                             # replies just above 256 bytes (and the largest request a packet holds)
+            cnt = rnd.choice([98, 100, 104, 109, 116, 120, 127]) // EW[ty]
         cnt = max(1, min(cnt, n - e))
         s = "%s%d:%d" % (ty, fno, e) + ("{%d}" % cnt if cnt > 1 else "")
         it.update({"ftype": ty, "file": fno, "elem": e, "count": cnt})
@@ -135,6 +137,8 @@ def gen(rnd, n):
                 if any(not it["valid"] for _, it in items):
                     items = [x for x in items if not x[1]["valid"]][:1]
                 calls.append({"api": "read", "tags": [s for s, _ in items], "intent": {"items": [it for _, it in items]}})
+        if i % 10 == 7:                                     # the request that crosses the wrap of the 16-bit counters
+            calls.insert(1, {"api": "advance_sequence", "n": 65535 - rnd.randint(1, 6)})
         calls.append({"api": "close"})
         slot = rnd.choice([0, 0, 2])
         scs.append({"id": "slc%d" % i, "family": "slc", "target": {"policy": rnd.choice(["LargeOK", "LargeRefused"]), "identity": S.identity(name="1747-L552")},
